@@ -229,7 +229,7 @@ class Models:
             n = ip.ctx.unique_int(z3.Length(x.e))
             if n is None:
                 return None
-            return [x.ek.wrap(z3.simplify(x.e[i])) for i in range(n)]
+            return [x.ek.wrap(x.e[i]) for i in range(n)]
         return list(ip.iterate(x))
 
     def m_tuple(self, ip, *args):
@@ -355,7 +355,7 @@ class Models:
         for i in range(n):
             if not all(ip.ctx.branch(z3.Length(sc.e) > i) for sc in symcols):
                 break
-            out.append(tuple((c.ek.wrap(z3.simplify(c.e[i])) if isinstance(c, SSeq) else c[i]) for c in cols))
+            out.append(tuple((c.ek.wrap(c.e[i]) if isinstance(c, SSeq) else c[i]) for c in cols))
         return out
 
     def m_range(self, ip, *args):
